@@ -261,7 +261,7 @@ def run_shard(ctx):
             a, b = K.random_pair(rng, maxlen=s["maxlen"])
             # the same sequences presented as views: inside a larger buffer, strided, read-only
             if n % 3 == 1 and len(a) <= 5000:
-                pa, pb = K.pickone(rng, ["own", "view_in_buffer", "strided", "readonly"]), K.pickone(rng, ["own", "view_in_buffer", "strided", "readonly"])
+                pa, pb = K.pickone(rng, ["own", "view_in_buffer", "strided", "readonly", "record_field", "record_field_reversed"]), K.pickone(rng, ["own", "view_in_buffer", "strided", "readonly", "record_field", "reversed"])
                 a = [x for l, x in K.presentations(a.tolist(), rng) if l == pa][0]
                 b = [x for l, x in K.presentations(b.tolist(), rng) if l == pb][0]
                 ctx.count("presentation:%s" % pa)
